@@ -125,6 +125,12 @@ def law_case(draw, tier):
         case = draw(gen.ed_join_case(tier, missing="none", allow_missing=False, score=True,
                                      default_tok=False))
         case["threshold2"] = draw(st.integers(0, 4))
+        # non-integral thresholds are valid input (the join floors them, for every operator)
+        frac = draw(st.sampled_from([0, 0, 0.5, 0.25, 0.999]))
+        if frac:
+            case["threshold"] = int(case["threshold"]) + frac
+            if draw(st.booleans()):
+                case["threshold2"] = case["threshold2"] + draw(st.sampled_from([0.5, 0.75]))
     else:
         case = draw(gen.set_join_case(tier, missing="none", allow_missing=False, score=True))
         lv = canon.table_column(case["L"], case["L"]["attr"])["values"]
@@ -291,7 +297,8 @@ def bundled_cases(tier):
                                                                       (5, 9)]):
             yield {"data": data, "measure": "OVERLAP", "tok": toks[0], "lax": lax,
                    "strict": strict}
-        for lax, strict in ([(3, 1)] if tier == "quick" else [(3, 1), (2, 0), (4, 2)]):
+        for lax, strict in ([(3, 1), (2.5, 1.5)] if tier == "quick" else
+                            [(3, 1), (2, 0), (4, 2), (2.5, 1.5), (3.75, 0.5)]):
             yield {"data": data, "measure": "EDIT_DISTANCE",
                    "tok": {"kind": "qgram", "q": 2, "padding": True, "return_set": False},
                    "lax": lax, "strict": strict}
